@@ -119,3 +119,81 @@ Example C02_any_strategy_run_verbs :
   SSAExample.verbs_of SSAExample.the_calls =
   [VGet; VGet; VUpdate; VDelete; VPatchJson; VPatchApply; VPatchApply; VPatchApply; VGet; VUpdateStatus]%list.
 Proof. vm_compute. reflexivity. Qed.
+
+(* ---- round 6 ---- *)
+From MC Require Import Model.Rolling Proofs.C04Proofs Proofs.C09Proofs Proofs.Round3Proofs Proofs.Round6Proofs.
+
+Theorem C02_manage_revisions_updates_only_claimed :
+  forall (ns : string) (observed desired : list revision),
+       all_calls
+         (fun cl : call =>
+          forall q : req,
+          cl = CApi q ->
+          q_verb q = VUpdate ->
+          q_res q = rev_res /\
+          q_ns q = ns /\
+          (exists o d : revision,
+             In o observed /\
+             In d desired /\ rev_name o = rev_name d /\ q_name q = rev_name o /\ q_body q = json_of_revision d))
+         (manage_revisions ns observed desired).
+Proof. exact Round6Proofs.C02_manage_revisions_updates_only_claimed. Qed.
+Print Assumptions C02_manage_revisions_updates_only_claimed.
+
+Theorem C02_manage_revisions_updates_only_claimed_run :
+  forall (ns : string) (observed desired : list revision) (e : env) (h post : list (call * answer))
+         (q : req) (a : answer) (pre : list (call * answer)),
+       fst (run (manage_revisions ns observed desired) e h) = (post ++ (CApi q, a) :: pre ++ h)%list ->
+       q_verb q = VUpdate ->
+       q_res q = rev_res /\
+       q_ns q = ns /\
+       (exists o d : revision,
+          In o observed /\
+          In d desired /\ rev_name o = rev_name d /\ q_name q = rev_name o /\ q_body q = json_of_revision d).
+Proof. exact Round6Proofs.C02_manage_revisions_updates_only_claimed_run. Qed.
+Print Assumptions C02_manage_revisions_updates_only_claimed_run.
+
+Theorem C02_claim_revisions_claimed :
+  forall (c : ccfg) (k : cache) (parent : json) (h0 : hist),
+       hist_post (fun (_ : hist) (_ : call) => True)
+         (fun (h : hist) (oc : option (list json)) =>
+          forall claimed : list json, oc = Some claimed -> claimed_ok c parent (rev_candidates k parent) h0 h claimed)
+         h0 (claim_revisions c k parent).
+Proof. exact Round6Proofs.claim_revisions_claimed. Qed.
+Print Assumptions C02_claim_revisions_claimed.
+
+Theorem C02_revision_updates_in_rolling_sync :
+  forall (c : ccfg) (k : cache) (parent : json) (observed related : umap) (h0 : hist),
+       hist_post (C02_revision_update_phi c k parent h0) (fun (_ : hist) (_ : hook_result) => True) h0
+         (sync_revisions_rolling c k parent observed related).
+Proof. exact Round6Proofs.C02_revision_updates_in_rolling_sync. Qed.
+Print Assumptions C02_revision_updates_in_rolling_sync.
+
+Theorem C02_revision_write_in_run :
+  forall (c : ccfg) (k : cache) (parent : json) (observed related : umap) (e : env)
+         (h0 post : list (call * answer)) (q : req) (a : answer) (pre : list (call * answer)),
+       fst (run (sync_revisions_rolling c k parent observed related) e h0) = (post ++ (CApi q, a) :: pre ++ h0)%list ->
+       q_res q = rev_res ->
+       q_verb q = VUpdate ->
+       exists o : json,
+         In o (rev_candidates k parent) /\
+         q_name q = get_name o /\
+         q_ns q = get_ns parent /\
+         (controlled_by o (get_uid parent) = true \/
+          controller_of o = None /\
+          ((exists cur : json, q_body q = adopt_edit c parent cur /\ passed c parent pre) \/
+           (exists cur x : json,
+              get_uid cur = get_uid o /\ In (rev_put parent o (adopt_edit c parent cur), AObj x) pre))).
+Proof. exact Round6Proofs.C02_revision_write_in_run. Qed.
+Print Assumptions C02_revision_write_in_run.
+
+Theorem C02_revision_write_inhabited :
+  map (fun ca : call * answer => R3X.call_sig (fst ca))
+         (trace_of (sync_revisions_rolling R3X.cfg R6X.k0 R3X.parent [] []) (R3X.e_ok R3X.parent false)) =
+       [(VGet, R3X.P, "p"); (VGet, R3X.R, "p-old"); (VUpdate, R3X.R, "p-old"); (VGet, "hook", "");
+        (VGet, "hook", ""); (VCreate, R3X.R, "p-new"); (VUpdate, R3X.R, "p-old")] /\
+       In R3X.orphan (rev_candidates R6X.k0 R3X.parent) /\
+       controller_of R3X.orphan = None /\
+       get_name R3X.orphan = "p-old" /\
+       result_of (claim_revisions R3X.cfg R6X.k0 R3X.parent) (R3X.e_ok R3X.parent false) = Some [R3X.orphan].
+Proof. exact Round6Proofs.C02_revision_write_inhabited. Qed.
+Print Assumptions C02_revision_write_inhabited.
